@@ -747,10 +747,10 @@ func genHistory(t *rapid.T) History {
 	// mode: which side (if any) is taken to a varint boundary by replication
 	mode := rapid.SampledFrom([]string{"plain", "plain", "plain", "plain", "plain", "plain", "plain", "plain", "in253", "out253", "both253", "big"}).Draw(t, "mode")
 	if mode == "big" {
-		// 65535/65536 elements cost ~10 ms per query: 1 case in 25 of this class (quick), 1 in 10 (thorough)
+		// 65535/65536 elements cost ~10 ms per query: 1 case in 25 of this class (quick), 1 in 15 (thorough)
 		k := 25
 		if pbt.Thorough() {
-			k = 10
+			k = 15
 		}
 		if rapid.IntRange(0, k-1).Draw(t, "big_really") == 0 {
 			mode = rapid.SampledFrom([]string{"in65536", "out65536"}).Draw(t, "big_side")
@@ -846,7 +846,7 @@ func genHistory(t *rapid.T) History {
 
 func TestHistory(t *testing.T) {
 	pbt.Run(t, pbt.Sub[History]{
-		Name: "history", Quick: 20000, Thorough: 300000,
+		Name: "history", Quick: 16000, Thorough: 200000,
 		Gen:   genHistory,
 		Check: checkHistory,
 	})
